@@ -61,21 +61,37 @@ theorem shortUnicodeErr_ok (n : Nat) (t : Text) : ErrOK n (shortUnicodeErr n t) 
   · exact errOK_posAt_pred _ _ _
 
 theorem readStringBody_bounded (n : Nat) (s : Text) : Bounded n (readStringBody n s) := by
-  fun_induction readStringBody n s with
-  | case1 => exact bounded_error _ _ (ErrOK.inside (Nat.le_refl _))
-  | case2 t => exact bounded_ok _ _
-  | case3 _ => exact bounded_error _ _ (errOK_eof n)
-  | case4 e t1 ch hq v r hrec _ ih => exact bounded_ok _ _
-  | case5 e t1 ch hq err hrec _ ih => exact bounded_error _ _ (ih _ hrec)
-  | case6 a b c' d t2 ch hx v r hrec _ hq ih => exact bounded_ok _ _
-  | case7 a b c' d t2 ch hx err hrec _ hq ih => exact bounded_error _ _ (ih _ hrec)
-  | case8 a b c' d t2 hx _ hq => exact bounded_error _ _ (errOK_posAt_pred _ _ _)
-  | case9 t1 hshort _ hq => exact bounded_error _ _ (shortUnicodeErr_ok _ _)
-  | case10 e t1 hq he _ => exact bounded_error _ _ (errOK_posAt_pred _ _ _)
-  | case11 c t h34 h92 hnl => exact bounded_error _ _ (errOK_posAt_pred _ _ _)
-  | case12 c t h34 h92 hnl hp => exact bounded_error _ _ (errOK_posAt_pred _ _ _)
-  | case13 c t h34 h92 hnl hp v r hrec ih => exact bounded_ok _ _
-  | case14 c t h34 h92 hnl hp err hrec ih => exact bounded_error _ _ (ih _ hrec)
+  fun_induction readStringBody n s <;>
+    first
+    | exact bounded_ok _ _
+    | exact bounded_error _ _ (ErrOK.inside (Nat.le_refl _))
+    | exact bounded_error _ _ (errOK_eof n)
+    | exact bounded_error _ _ (errOK_posAt_pred _ _ _)
+    | exact bounded_error _ _ (shortUnicodeErr_ok _ _)
+    | (rename_i hrec _ ih; exact bounded_error _ _ (ih _ hrec))
+    | (rename_i hrec ih; exact bounded_error _ _ (ih _ hrec))
+    | (rename_i hrec _ _ ih; exact bounded_error _ _ (ih _ hrec))
+    | (rename_i hrec _ _ _ ih; exact bounded_error _ _ (ih _ hrec))
+
+theorem pairAt_of_not_high (ch : Nat) (t : Text) (hh : isHighSurrogate ch = false) : pairAt ch t = none := by
+  unfold pairAt
+  split
+  · simp [pairEscape, hh]
+  · rfl
+
+/-- a `\uXXXX` escape that is not a high surrogate is one code unit (no pairing) -/
+theorem readStringBody_unicode_single (n : Nat) (a b c d ch : Nat) (t2 : Text) (hx : hex4 a b c d = some ch)
+    (hh : isHighSurrogate ch = false) :
+    readStringBody n (92 :: 117 :: a :: b :: c :: d :: t2) =
+      match readStringBody n t2 with
+      | .ok (v, r) => .ok (ch :: v, r)
+      | .error err => .error err := by
+  have hq : quoted 117 = none := by decide
+  rw [readStringBody.eq_def]
+  simp only [Nat.reduceEqDiff, ↓reduceIte, hq, hx, pairAt_of_not_high ch t2 hh]
+  cases readStringBody n t2 with
+  | ok p => obtain ⟨v, r⟩ := p; rfl
+  | error e => rfl
 
 theorem readString_bounded (n : Nat) (s : Text) : Bounded n (readString n s) := by
   intro e he
